@@ -142,6 +142,42 @@ def pdeInit (isPDE : Bool) (rangeArg domainArg : GeomArg) : Except CErr ModelIni
   else modelInit { forwardCallable := true, gradient := .callable, jacobian := .absent,
                    rangeArg := rangeArg, domainArg := domainArg, cached := none, params := [("x", false)] }
 
+/-! ### the arguments as python values: `callable(...)`, the cached names and the signature are DERIVED -/
+
+/-- what kind of python value is passed where a callable is expected -/
+inductive PyArg
+  | function (params : List (String × Bool))   -- `def` / `lambda` / bound method (without `self`): names and "has a default"
+  | modelObject (args : List String)           -- a `cuqi.model.Model` (callable; carries `_non_default_args`)
+  | ndarray (rows cols : Nat)                  -- a 2-D array / sparse matrix (`.shape`)
+  | listObj | number | strObj                  -- not callable, no `.shape`
+  | noneObj                                    -- `None` (= argument not given for `gradient` / `jacobian` / `adjoint`)
+  deriving DecidableEq, Repr
+
+/-- `callable(v)` -/
+def PyArg.callable : PyArg → Bool
+  | .function _ => true
+  | .modelObject _ => true
+  | _ => false
+
+/-- an optional callable argument as the checks `is not None` / `callable(...)` see it -/
+def PyArg.toOpt (v : PyArg) : OptCallable :=
+  if v == .noneObj then .absent else if v.callable then .callable else .notCallable
+
+/-- `Model(forward, range_geometry, domain_geometry, gradient, jacobian)` from the values passed -/
+def modelInitPy (fwd grad jac : PyArg) (ra da : GeomArg) : Except CErr ModelInitRes :=
+  modelInit { forwardCallable := fwd.callable, gradient := grad.toOpt, jacobian := jac.toOpt, rangeArg := ra, domainArg := da
+              cached := match fwd with | .modelObject a => some a | _ => none
+              params := match fwd with | .function p => p | _ => [] }
+
+/-- `LinearModel(forward, adjoint, range_geometry, domain_geometry)` from the values passed
+    (`forward` other than `None`) -/
+def linearInitPy (fwd adj : PyArg) (ra da : GeomArg) : Except CErr LinInitRes :=
+  linearInit (match fwd with
+              | .function p => .callable none p
+              | .modelObject a => .callable (some a) []
+              | .ndarray r c => .matrix r c
+              | _ => .noShape) adj.toOpt ra da
+
 /-- `CUQIarray.__new__(input_array, is_par, geometry)`: `ndim` and length of the first axis of
     `np.asarray(input_array)`; returns the geometry the array carries. -/
 def cuqiarrayNew (ndim : Nat) (len0 : Nat) (isPar : Bool) (geometry : Option Nat) : Except CErr GeomRes :=
